@@ -410,7 +410,7 @@ func c26Case(t *testing.T, rng *rand.Rand) (res c26Result) {
 
 func TestC26(t *testing.T) {
 	r := evid.Start(t, "C26", "exploration")
-	n := r.N(300, 10000) // × 20 requests
+	n := r.N(1500, 20000) // × 20 requests
 	r.Cases("filters", n, 0, func(ci int, rng *rand.Rand) {
 		res := c26Case(t, rng)
 		r.Eval(res.requests)
@@ -433,7 +433,7 @@ func TestC26(t *testing.T) {
 		}
 	})
 	r.Finish("per case: 4-12 members with names/tag values from an alphabet with regex metacharacters, unicode, newlines, prefixes/suffixes of each other; statuses alive/leaving/left/failed produced through serf's event delegate and leave intents; 20 members-filtered requests with name/status/tag patterns from a grammar (ungrouped alternation, empty branches, groups, classes, quantifiers, anchors, inline flags, invalid patterns) built from substrings of the member set; reference = \\A(?:p)\\z over serf's own member list; non-trivial = request whose patterns contain an operator or are invalid; distinct by (request, member set)",
-		r.N(1500, 50000),
+		r.N(8000, 100000),
 		"Go regexp (RE2) syntax defines pattern validity and matching; a pattern is invalid iff regexp.Compile(p) fails on p alone",
 		"an invalid pattern may be answered by closing the connection (DESIGN §9)")
 }
